@@ -105,6 +105,27 @@ def known_witness(ctx, kvh):
             ctx.notes.append("known finding C07-terminal-gap-split no longer reproduces: rows=%s" % rows)
 
 
+def staggered_pair(rng, overrides=False):
+    """two single sequences of different length in a staggered overlap (the shorter one runs past the end of the longer one) with a small indel near
+    the end of the shared part: the trailing gap is terminal for one row only, and whether the indel is opened depends on how that gap is priced"""
+    kind = rng.choice(["dna", "dna", "rna", "protein"])
+    alpha = gen.AA if kind == "protein" else (gen.RNA if kind == "rna" else gen.DNA)
+    t = rng.choice([3, 4]) if kind == "protein" else (rng.choice([0, 1]) if kind == "dna" else 2)
+    core = gen.rand_seq(rng, alpha, rng.randint(12, 60))
+    cut = rng.randint(max(1, len(core) - 12), len(core) - 2)
+    core2 = core[:cut] + gen.rand_seq(rng, alpha, rng.randint(1, 4)) + core[cut:] if rng.random() < 0.5 else core[:cut] + core[cut + rng.randint(1, 3):]
+    a = gen.rand_seq(rng, alpha, rng.randint(10, 60)) + core
+    b = core2 + gen.rand_seq(rng, alpha, rng.randint(2, 25))
+    if rng.random() < 0.3:
+        a, b = b[::-1], a[::-1]
+    pens = [-1, -1, -1]
+    if overrides:
+        scale = 30.0 if t == 2 else (8.0 if t == 4 else 1.0)
+        for k in rng.sample(range(3), rng.choice([1, 1, 2, 3])):
+            pens[k] = rng.choice([0, 0.5, 1, 2, 3, 5, 8]) * scale if k == 2 else rng.choice([1, 2, 4, 6, 8, 12]) * scale
+    return dict(kind=kind, a=a, b=b, t=t, pens=pens, ka=1, kb=1, bt=0 if kind == "protein" else 1, threads=1)
+
+
 def marginal_dovetail(rng, overrides=False):
     """two groups whose sequences overlap in a SHORT core (2..12 residues) with overhangs on both sides, the right overhang of the shorter one longer than
     half of it: whether the overlap is worth joining is decided by a few score units, among them the terminal gap penalty of the type / of the caller"""
@@ -261,7 +282,7 @@ def run(ctx):
             ka, kb = rng.choice([(1, 2), (2, 1), (1, 3), (3, 1), (2, 3), (3, 2)])
             pens = [-1, -1, -1]
         threads = rng.choice([1, 4])
-        if i < (36 if ctx.quick else 240):
+        if i < (60 if ctx.quick else 300):
             # dedicated stream for the task-parallel controller (>= 500 columns on the shorter side, several threads): every kernel family,
             # in particular group-vs-group merges, whose two halves run as OpenMP tasks that the meetup must wait for
             n = rng.choice([510, 560, 700])
